@@ -4,6 +4,7 @@ From Coq Require Import List NArith ZArith Bool String Lia.
 Import ListNotations.
 From JR Require Import Conn Conn_Proofs Json Handle Handle_Proofs.
 From JRGen Require Extracted.
+From JR Require Skeletons.
 Open Scope N_scope.
 
 (* the only resend in the library is the caller's retry loop, guarded by the retry tag and the temporary
@@ -51,6 +52,15 @@ Theorem c04_notification_no_response : forall c ok r,
   (exists code m inv, handle c ok r = (Some (rpc_error None code m), inv)).
 Proof. exact handle_notification. Qed.
 
+(* the functions this property's model is an abstraction of still have the control / locking / shared-state skeleton the
+   model was written against (Skeletons.v, by hand; Extracted.v, regenerated from /repo) *)
+Theorem c04_code_skeletons :
+  JRGen.Extracted.effects_tryReconnect = JR.Skeletons.tryReconnect /\
+  JRGen.Extracted.effects_handleWsConn = JR.Skeletons.handleWsConn /\
+  JRGen.Extracted.effects_setupRequestChan = JR.Skeletons.setupRequestChan.
+Proof. repeat split; reflexivity. Qed.
+
+Print Assumptions c04_code_skeletons.
 Print Assumptions c04_source_facts.
 Print Assumptions c04_written_at_most_once.
 Print Assumptions c04_no_spontaneous_resend.
